@@ -64,8 +64,11 @@ def finish(ctx, t0, seed, stats, level_explanation, assumptions, write_evidence=
     for o in ctx.obs:
         if o["ok"]:
             continue
-        if o["key"] in known_keys:
-            known_hit.append((o, known_keys[o["key"]]))
+        # the thorough tier re-evaluates every rule on the second feature set; the same finding seen
+        # there carries the same key behind the "F2|debug-jobserver|" prefix
+        base_key = o["key"][len("F2|debug-jobserver|"):] if o["key"].startswith("F2|debug-jobserver|") else o["key"]
+        if base_key in known_keys:
+            known_hit.append((o, known_keys[base_key]))
         else:
             viols.append(o)
     os.makedirs(os.path.join(VERIF, "evidence", "replay"), exist_ok=True)
